@@ -23,3 +23,96 @@ pub open spec fn actions_kept(t0: Map<Condition, GrandState>, t1: Map<Condition,
 pub open spec fn want_internal(t: Map<Condition, GrandState>, sig: signal::Number, d: Disposition) -> bool {
     t.contains_key(Condition::Signal(sig)) ==> t[Condition::Signal(sig)].internal() == d
 }
+
+// ---- iteration over the table by mutable reference --------------------------------------------------------
+/// Model of `hash_map::IterMut` / `ValuesMut` (for `for (k, v) in &mut map` and `for v in map.values_mut()`; std:
+/// `IntoIterator for &mut HashMap` is `iter_mut()`, `values_mut()` is `iter_mut()` without the keys).  ASSUMED: every
+/// entry of the map is yielded exactly once, in some order, as a mutable reference to its value; when the references
+/// expire the map holds their final values under the same keys.
+#[verifier::external_body]
+#[verifier::reject_recursive_types(K)]
+#[verifier::reject_recursive_types(V)]
+pub struct VerifIterMut<'a, K, V> { it: std::collections::hash_map::IterMut<'a, K, V> }
+impl<'a, K, V> VerifIterMut<'a, K, V> {
+    /// keys not yet yielded
+    pub uninterp spec fn todo(&self) -> Set<K>;
+    /// the mutable reference each key stands for (fixed when the iterator is made)
+    pub uninterp spec fn slots(&self) -> Map<K, &'a mut V>;
+    #[verifier::external_body]
+    pub fn next(&mut self) -> (r: Option<(&'a K, &'a mut V)>)
+        ensures
+            final(self).slots() == old(self).slots(),
+            match r {
+                None => old(self).todo() =~= Set::<K>::empty() && final(self).todo() == old(self).todo(),
+                Some((k, v)) => old(self).todo().contains(*k) && final(self).todo() == old(self).todo().remove(*k) && v == old(self).slots()[*k],
+            },
+    { self.it.next() }
+}
+#[verifier::external_body]
+pub fn verif_iter_mut<'a, K, V>(m: &'a mut BTreeMap<K, V>) -> (it: VerifIterMut<'a, K, V>)
+    ensures
+        it.todo() == old(m)@.dom(),
+        it.slots().dom() == old(m)@.dom(),
+        forall|k: K| #[trigger] old(m)@.contains_key(k) ==> *it.slots()[k] == old(m)@[k],
+        final(m)@.dom() == old(m)@.dom(),
+        forall|k: K| #[trigger] old(m)@.contains_key(k) ==> final(m)@[k] == *final(it.slots()[k]),
+{ VerifIterMut { it: m.iter_mut() } }
+
+// ---- subshell entry on the table ----------------------------------------------------------------------------
+/// the system refuses nothing (`TrapSet::enter_subshell` ignores errors; what it guarantees, it guarantees for a
+/// system that carries out what it is asked)
+pub open spec fn norefuse<S: SignalSystem>(system: S) -> bool {
+    forall|s: signal::Number, d: Disposition| !system.refuses(s, d)
+}
+/// SIGCHLD is none of the signals the options of subshell entry are about (true of every system; the clauses below
+/// are stated for such systems so that they do not depend on the order in which the code tests the signal numbers)
+pub open spec fn chld_distinct<S: SignalSystem>() -> bool {
+    S::SIGCHLD != S::SIGINT && S::SIGCHLD != S::SIGQUIT && S::SIGCHLD != S::SIGTSTP && S::SIGCHLD != S::SIGTTIN && S::SIGCHLD != S::SIGTTOU
+}
+pub open spec fn is_stopper<S: SignalSystem>(s: signal::Number) -> bool { s == S::SIGTSTP || s == S::SIGTTIN || s == S::SIGTTOU }
+/// documented: "If ignore_sigint_sigquit is true, this function sets the dispositions for SIGINT and SIGQUIT to Ignore";
+/// "If keep_internal_dispositions_for_stoppers is true and the internal dispositions have been enabled for SIGTSTP,
+/// SIGTTIN, and SIGTTOU, this function leaves the dispositions for those signals set to Ignore"
+pub open spec fn forced_ignore<S: SignalSystem>(c: Condition, ign: bool, keep: bool, internal: Disposition) -> bool {
+    c is Signal && ((ign && (c->Signal_0 == S::SIGINT || c->Signal_0 == S::SIGQUIT)) || (keep && is_stopper::<S>(c->Signal_0) && internal != Disposition::Default))
+}
+/// What subshell entry makes of one record (C08: "traps with command actions are reset to default while ignored
+/// signals stay ignored"; documented: internal dispositions are cleared except for SIGCHLD)
+pub open spec fn rec_entered<S: SignalSystem>(c: Condition, pre: GrandState, post: GrandState, ign: bool, keep: bool) -> bool {
+    let forced = forced_ignore::<S>(c, ign, keep, pre.internal());
+    &&& post.internal() == (if c == Condition::Signal(S::SIGCHLD) { pre.internal() } else { Disposition::Default })
+    &&& forced ==> post.cur().action == Action::Ignore
+    &&& forced && post.cur().origin == Origin::Inherited ==> pre.cur().action == Action::Ignore && pre.cur().origin == Origin::Inherited
+    &&& !forced && pre.cur().action is Command ==> post.cur() == (TrapState { action: Action::Default, origin: Origin::Subshell, pending: false })
+    &&& !forced && !(pre.cur().action is Command) ==> post.cur() == pre.cur()
+    &&& pre.cur().action == Action::Ignore ==> post.cur().action == Action::Ignore
+    &&& pre.cur().action == Action::Ignore && pre.cur().origin == Origin::Inherited ==> post.cur().origin == Origin::Inherited
+}
+/// the parent state remembered for a record: the trap that was reset, nothing otherwise (t1: parent states cleared)
+pub open spec fn parent_entered(pre: GrandState, post: GrandState) -> bool {
+    post.parent() == (if pre.cur().action is Command { Some(pre.cur()) } else { None::<TrapState> })
+}
+#[verifier::prophetic]
+pub open spec fn loop1_inv<S: SignalSystem>(t1: Map<Condition, GrandState>, slots: Map<Condition, &mut GrandState>, todo: Set<Condition>, sys1: S, sys: S, ign: bool, keep: bool) -> bool {
+    &&& forall|s: signal::Number, d: Disposition| sys.refuses(s, d) == sys1.refuses(s, d)
+    // records not yet visited: untouched, and what is installed for them is what they want
+    &&& forall|c: Condition| #[trigger] todo.contains(c) && c is Signal ==> sys.installed(c->Signal_0) == t1[c].wanted()
+    // signals without a record: untouched
+    &&& forall|s: signal::Number| #![trigger sys.installed(s)] !t1.contains_key(Condition::Signal(s)) ==> sys.installed(s) == sys1.installed(s)
+    // records visited
+    &&& forall|c: Condition| #[trigger] t1.contains_key(c) && !todo.contains(c) ==> ({
+            let post = *final(slots[c]);
+            &&& t1[c].parent() is None ==> parent_entered(t1[c], post)
+            &&& norefuse(sys1) && chld_distinct::<S>() ==> rec_entered::<S>(c, t1[c], post, ign, keep)
+            &&& norefuse(sys1) && c is Signal ==> sys.installed(c->Signal_0) == post.wanted()
+        })
+}
+pub open spec fn loop2_inv<S: SignalSystem>(t2: Map<Condition, GrandState>, t: Map<Condition, GrandState>, sys2: S, sys: S, i: int) -> bool {
+    &&& forall|s: signal::Number, d: Disposition| sys.refuses(s, d) == sys2.refuses(s, d)
+    &&& forall|c: Condition| #[trigger] t2.contains_key(c) ==> t.contains_key(c) && t[c] == t2[c]
+    &&& forall|c: Condition| #[trigger] t.contains_key(c) && !t2.contains_key(c) ==> ((i >= 1 && c == Condition::Signal(S::SIGINT)) || (i >= 2 && c == Condition::Signal(S::SIGQUIT)))
+            && t[c].cur().action == Action::Ignore && t[c].parent() is None && t[c].internal() == Disposition::Default
+            && sys.installed(c->Signal_0) == t[c].wanted()
+    &&& forall|s: signal::Number| (t2.contains_key(Condition::Signal(s)) || !(#[trigger] t.contains_key(Condition::Signal(s)))) ==> sys.installed(s) == sys2.installed(s)
+    &&& norefuse(sys2) ==> (i >= 1 ==> t.contains_key(Condition::Signal(S::SIGINT))) && (i >= 2 ==> t.contains_key(Condition::Signal(S::SIGQUIT)))
+}
